@@ -20,6 +20,9 @@ theorem MExpr.layout_eq_spec (e : MExpr) : e.layout = e.layoutSpec := by
   | viaTensor e ih =>
     simp only [MExpr.layout, MExpr.layoutSpec, ← ih]
     cases e.layout <;> rfl
+  | swapped e ih =>
+    simp only [MExpr.layout, MExpr.layoutSpec, ← ih]
+    cases e.layout <;> rfl
 
 theorem mem_indexPairs (rows columns i j : Nat) :
     (i, j) ∈ indexPairs rows columns ↔ i < rows ∧ j < columns := by
